@@ -97,6 +97,13 @@ fn agg_coq(a: &Value, ids: &BTreeMap<String, i64>) -> String {
       opt_z(a.get("missing").and_then(|m| m.as_str()).map(|s| ids[s])),
       subs_coq(a, ids)
     ),
+    "rare_terms" => format!(
+      "(ARare {} {}%N {} {})",
+      kw_field(a["field"].as_str().unwrap()),
+      a.get("max_doc_count").and_then(|s| s.as_u64()).unwrap_or(1),
+      opt_n(a.get("size").and_then(|s| s.as_u64())),
+      subs_coq(a, ids)
+    ),
     "range" => {
       let rs: Vec<String> = a["ranges"]
         .as_array()
@@ -181,7 +188,7 @@ fn resp_coq(a: &Value, r: &Value, ids: &BTreeMap<String, i64>) -> String {
   assert_eq!(r["type"].as_str().unwrap(), kind, "response kind");
   let f = |k: &str| r[k].as_f64().unwrap_or_else(|| panic!("number {k} in {r}"));
   match kind {
-    "terms" | "range" | "histogram" => {
+    "terms" | "rare_terms" | "range" | "histogram" => {
       let bs: Vec<String> = r["buckets"]
         .as_array()
         .unwrap()
@@ -189,7 +196,7 @@ fn resp_coq(a: &Value, r: &Value, ids: &BTreeMap<String, i64>) -> String {
         .enumerate()
         .map(|(i, b)| {
           let key = match kind {
-            "terms" => ids[b["key"].as_str().expect("terms key")],
+            "terms" | "rare_terms" => ids[b["key"].as_str().expect("terms key")],
             "range" => i as i64,
             _ => halves(b["key"].as_f64().expect("histogram key")),
           };
@@ -271,6 +278,7 @@ fn threshold_sensitive(v: &Value) -> bool {
     Value::Object(m) => {
       let t = m.get("type").and_then(|t| t.as_str());
       ((t == Some("terms") || t == Some("histogram")) && (m.get("min_doc_count").and_then(|x| x.as_u64()).unwrap_or(1) >= 2 || m.contains_key("size")))
+        || t == Some("rare_terms")
         || m.values().any(threshold_sensitive)
     }
     Value::Array(a) => a.iter().any(threshold_sensitive),
